@@ -702,6 +702,7 @@ func (tf *transformer) writeSourceFile(basename, obfuscated string, content []by
 	}
 	dstPath := filepath.Join(pkgDir, obfuscated)
 	verifhook.Event("src.write", "base", basename, "digest", verifhook.BytesDigest(content))
+	verifhook.KeepSource(tf.curPkg.ImportPath, obfuscated, content)
 	if err := writeFileExclusive(dstPath, content); err != nil {
 		return "", err
 	}
